@@ -126,6 +126,11 @@ func (ms *measureService) Write(measure measurev1.MeasureService_WriteServer) er
 		if writeRequest.GetMetadata() != nil {
 			metadata = writeRequest.GetMetadata()
 			nodeMetadataSent = make(map[string]bool)
+			// A spec is bound to the metadata it was declared with. A request that
+			// indicates metadata without a spec falls back to the schema definition.
+			spec = nil
+			nodeSpecSent = make(map[string]bool)
+			specEntityLocator, specShardingKeyLocator = nil, nil
 		} else if isFirstRequest {
 			ms.l.Error().Msg("metadata is required for the first request of gRPC stream")
 			ms.sendReply(nil, modelv1.Status_STATUS_METADATA_REQUIRED, writeRequest.GetMessageId(), measure)
